@@ -196,7 +196,7 @@ def run(tier):
     r = parts['mc']
     rep.add_tlc(r, 'BasicMC')
     rep.model_violation(r, 'BasicMC')
-    if not r.violated and r.distinct < 100000:
+    if not r.violated and r.distinct < 60000:
         raise MachineryError('BasicMC explored only %d states' % r.distinct)
 
     rep.drift = sum(drift.values())
